@@ -1,8 +1,8 @@
-#!/bin/sh
+#!/bin/bash
 # Run a check against ANOTHER checkout of DemoHn/Zn (e.g. a scratch worktree holding a seeded
 # change) without touching /repo: a temporary copy of /verif is pointed at it.
 #   tools/altcheck.sh <repo-dir> <CNN> [quick|thorough]
-set -e
+set -e -o pipefail
 REPO="$1"; PROP="$2"; TIER="${3:-quick}"
 ALT=$(mktemp -d /tmp/verif-alt-XXXXXX)
 trap 'rm -rf "$ALT"' EXIT
